@@ -15,19 +15,77 @@ import (
 	"os"
 	"strings"
 
+	"mvdan.cc/sh/v3/syntax"
 	"verifharness/hx"
 	"verifharness/hxc26"
 )
 
 type caseOut struct {
-	Src      string     `json:"src"`
-	Coq      string     `json:"coq,omitempty"`
-	Kind     string     `json:"kind"`
-	Class    string     `json:"class,omitempty"`
-	CancelMs int        `json:"cancel_ms"`
-	Bytes    int        `json:"bytes,omitempty"`
-	Stdin    string     `json:"stdin,omitempty"`
-	Go       hxc26.Resp `json:"go"`
+	Src      string `json:"src"`
+	Coq      string `json:"coq,omitempty"`
+	Kind     string `json:"kind"`
+	Class    string `json:"class,omitempty"`
+	CancelMs int    `json:"cancel_ms"`
+	Bytes    int    `json:"bytes,omitempty"`
+	Stdin    string `json:"stdin,omitempty"`
+	// BlockedLast: decided on the syntax tree — the last command the main thread can be executing is a
+	// blocking builtin (read, wait, select) or a loop whose condition is such a read (class
+	// blocked_last_statement_returns_nil of KF-C31-3)
+	BlockedLast bool       `json:"blocked_last"`
+	Go          hxc26.Resp `json:"go"`
+}
+
+// lastIsBlocking follows the LAST statement of a list down to the command the main thread ends in.
+func lastIsBlocking(stmts []*syntax.Stmt, funcs map[string]*syntax.Stmt, depth int) bool {
+	if len(stmts) == 0 || depth > 8 {
+		return false
+	}
+	st := stmts[len(stmts)-1]
+	if st.Background {
+		return false
+	}
+	switch c := st.Cmd.(type) {
+	case *syntax.CallExpr:
+		if len(c.Args) == 0 {
+			return false
+		}
+		switch name := c.Args[0].Lit(); name {
+		case "read", "wait":
+			return true
+		default:
+			if body, ok := funcs[name]; ok {
+				return lastIsBlocking([]*syntax.Stmt{body}, funcs, depth+1)
+			}
+		}
+	case *syntax.Block:
+		return lastIsBlocking(c.Stmts, funcs, depth+1)
+	case *syntax.Subshell:
+		return lastIsBlocking(c.Stmts, funcs, depth+1)
+	case *syntax.BinaryCmd:
+		if c.Op == syntax.Pipe || c.Op == syntax.PipeAll {
+			return lastIsBlocking([]*syntax.Stmt{c.Y}, funcs, depth+1) // the last stage runs in the main thread
+		}
+	case *syntax.WhileClause:
+		return lastIsBlocking(c.Cond, funcs, depth+1) // while read ...: ends when the read fails
+	case *syntax.ForClause:
+		return c.Select // select reads its reply
+	}
+	return false
+}
+
+func blockedLast(src string) bool {
+	f, err := syntax.NewParser(syntax.Variant(syntax.LangBash)).Parse(strings.NewReader(src), "")
+	if err != nil {
+		return false
+	}
+	funcs := map[string]*syntax.Stmt{}
+	syntax.Walk(f, func(n syntax.Node) bool {
+		if fd, ok := n.(*syntax.FuncDecl); ok && fd.Name != nil {
+			funcs[fd.Name.Value] = fd.Body
+		}
+		return true
+	})
+	return lastIsBlocking(f.Stmts, funcs, 0)
 }
 
 // ---- generated looping / blocking programs ---------------------------------------------
@@ -116,7 +174,7 @@ func main() {
 		var cases []caseOut
 		var reqs []hxc26.Req
 		add := func(t tmpl, ms int) {
-			cases = append(cases, caseOut{Src: t.src, Kind: t.kind, Class: t.class, CancelMs: ms, Stdin: t.stdin})
+			cases = append(cases, caseOut{Src: t.src, Kind: t.kind, Class: t.class, CancelMs: ms, Stdin: t.stdin, BlockedLast: blockedLast(t.src)})
 			// the context deadline is far behind the cancellation; the worker's watchdog fires
 			// 6.5 s after the cancellation (kill timeout 2 s + margin 2 s + 2.5 s): still running = hang
 			reqs = append(reqs, hxc26.Req{Src: t.src, CancelMs: ms, TimeoutMs: ms + 60000, HardMs: ms + 6500, Stdin: t.stdin})
